@@ -18,7 +18,8 @@ type c06Cell struct {
 	Front  int    `json:"front"`
 	Path   string `json:"path"`   // cold | syncS | bgS | waiter | skipF
 	Caller string `json:"caller"` // none | 0 | 10s | 1h | -1s
-	Cancel string `json:"cancel"` // never | before | after
+	Cancel string `json:"cancel"` // never | before | after | deadline
+	Same   bool   `json:"same,omitempty"` // ObserveMutability on and the builder returns a value equal to the stale one
 }
 
 func (c c06Cell) id() string { js, _ := json.Marshal(c); return string(js) }
@@ -31,6 +32,10 @@ func c06Cells(tier string) []Cell {
 			for _, caller := range []string{"none", "0", "10s", "1h", "-1s"} {
 				for _, cancel := range []string{"never", "before", "after", "deadline"} {
 					cells = append(cells, Cell{ID: c06Cell{Front: front, Path: path, Caller: caller, Cancel: cancel}.id()})
+
+					if (path == "syncS" || path == "bgS") && cancel == "never" {
+						cells = append(cells, Cell{ID: c06Cell{Front: front, Path: path, Caller: caller, Cancel: cancel, Same: true}.id()})
+					}
 				}
 			}
 		}
@@ -121,6 +126,9 @@ func c06Run(c Cell, env *Env) CellResult {
 	}
 
 	cfg := FCfg{Front: cc.Front, MS: true, FailC: "0", Script: "o"}
+	if cc.Same {
+		cfg.Script, cfg.ObsMut = "s", true
+	}
 
 	switch cc.Path {
 	case "cold":
@@ -202,6 +210,34 @@ func c06Run(c Cell, env *Env) CellResult {
 				}
 
 				return want
+			}
+
+			if cc.Same {
+				// the rebuilt token equals the stale one: the store that follows the build is recognised by position
+				finalW = nil
+
+				var buildEnd int = -1
+
+				for _, e := range h.log {
+					if e.Kind == "build-end" {
+						buildEnd = e.Seq
+					}
+				}
+
+				for _, e := range h.log {
+					if e.Kind == "write" && buildEnd >= 0 && e.Seq > buildEnd {
+						e.Tok.N = 0
+						finalW = append(finalW, e)
+					}
+				}
+
+				refreshW = nil
+
+				for _, e := range h.log {
+					if e.Kind == "write" && (buildEnd < 0 || e.Seq < buildEnd) {
+						refreshW = append(refreshW, e)
+					}
+				}
 			}
 
 			if len(finalW) == 0 || (cc.Path != "waiter" && len(finalW) != 1) {
